@@ -218,13 +218,36 @@ func rulesExtract(p *Prog, r *Report, eng *Engine) {
 			r.Bad("E1", "flatten|concatenates all", p.pos(ff.Pos()), "flatten does not concatenate every inner list: "+why)
 		}
 	}
-	// E1c: one string per flattened node
+	// E1c: one string per flattened node — in ExtractLicenses itself, or in a helper that is handed the
+	// flattened nodes and returns the strings
 	{
-		loops := findAppendLoops(ext)
+		mapFn, mapColl := ext, ssa.Value(nil)
+		if flatCall != nil {
+			mapColl = flatCall
+		}
+		viaHelper := ""
+		if flatCall != nil {
+			for _, ref := range *flatCall.Referrers() {
+				c, isCall := ref.(*ssa.Call)
+				if !isCall {
+					continue
+				}
+				h := c.Call.StaticCallee()
+				if h == nil || !p.InModule(h) || len(h.Blocks) == 0 {
+					continue
+				}
+				for i, a := range c.Call.Args {
+					if a == ssa.Value(flatCall) && i < len(h.Params) && len(findAppendLoops(h)) > 0 {
+						mapFn, mapColl, viaHelper = h, h.Params[i], h.Name()
+					}
+				}
+			}
+		}
+		loops := findAppendLoops(mapFn)
 		ok := false
 		why := "no accumulate-by-append loop over the flattened nodes found"
 		for _, al := range loops {
-			if flatCall != nil && al.Coll != ssa.Value(flatCall) {
+			if mapColl != nil && al.Coll != mapColl {
 				why = "the string loop does not range over the flattened nodes"
 				continue
 			}
@@ -244,10 +267,23 @@ func rulesExtract(p *Prog, r *Report, eng *Engine) {
 				} else {
 					why = "the appended string is not the canonical text of the current node: " + pv
 				}
+				if ok && viaHelper != "" {
+					// the helper must return its accumulator
+					ret := false
+					for _, ref := range *al.Acc.Referrers() {
+						if _, isRet := ref.(*ssa.Return); isRet {
+							ret = true
+						}
+					}
+					if !ret {
+						ok = false
+						why = viaHelper + " does not return the list it builds"
+					}
+				}
 			}
 		}
 		if ok {
-			r.OK("E1", "ExtractLicenses|one string per node", p.pos(ext.Pos()), "full range, unconditional", "", true)
+			r.OK("E1", "ExtractLicenses|one string per node", p.pos(ext.Pos()), "full range, unconditional", viaHelper, true)
 		} else {
 			r.Bad("E1", "ExtractLicenses|one string per node", p.pos(ext.Pos()), why)
 		}
